@@ -1534,6 +1534,25 @@ fn judge_body(r: &mut Report, e: &mut E2e, info: &BodyInfo, outs: &[RunOut], log
             );
             continue;
         }
+        // confirmation: a verdict needs a witness that replays — run exactly the two chunkings again and report only
+        // if the frames differ again (a one-off difference that does not reproduce is counted as inconclusive)
+        {
+            let again = [
+                Chunking { label: "confirm_1", sizes: first.planned.clone(), pause_us: 1500 },
+                Chunking { label: "confirm_2", sizes: o.planned.clone(), pause_us: 1500 },
+            ];
+            match e.run_body(body, &again, Instant::now() + Duration::from_secs(20)) {
+                Ok((re, _)) if re.len() == 2 && re[0].frames == re[1].frames => {
+                    r.count("B_differences_not_reproduced_on_confirmation", 1);
+                    r.inconclusive(&format!(
+                        "C15/B: a difference between chunkings {:?} and {:?} did not reproduce when the two runs were repeated",
+                        clipv(&first.observed), clipv(&o.observed)
+                    ));
+                    continue;
+                }
+                _ => {}
+            }
+        }
         r.violation(
             &format!("C15/B/frames_depend_on_chunking/{class}"),
             &format!(
@@ -1544,7 +1563,16 @@ fn judge_body(r: &mut Report, e: &mut E2e, info: &BodyInfo, outs: &[RunOut], log
         );
         return multi;
     }
-    // 2. reference: count / order / payload, for every run
+    // 2. reference: count / order / payload, for every run — unless the (lossily decoded) body contains a lone CR:
+    // the statement quantifies over LF and CRLF streams, and whether a bare CR ends a line is outside it (injected
+    // invalid bytes after a final "\r" create one); such bodies are judged on chunking-invariance only
+    let lossy_body = String::from_utf8_lossy(body).to_string();
+    let lb = lossy_body.as_bytes();
+    let lone_cr = (0..lb.len()).any(|i| lb[i] == b'\r' && (i + 1 >= lb.len() || lb[i + 1] != b'\n'));
+    if lone_cr {
+        r.count("B_bodies_with_lone_cr_not_judged_against_reference", 1);
+        return multi;
+    }
     for o in outs {
         match judge_against_reference(&o.frames, &reference, invalid, true) {
             Ok(j) => {
